@@ -114,6 +114,75 @@ theorem witnesses_violate_exactly_one :
     (¬ SectionFirst witnessSectionEarlier ∧ NoEarlierClash [] secWf1) := by
   decide
 
+/-! ### the verified cut (repo patch 31) -/
+
+/-- "every workflow extracted from a workbook is the workflow written in the workbook", at FULL strength:
+    for EVERY workbook text (any layout, any clash, section keyword anywhere or nowhere), every section
+    and member name, the definition text `_get_member_definition` returns parses to exactly the member the
+    parsed workbook holds — under the one assumption about PyYAML that a dumped member parses back to
+    itself (`hrt`, tied by stream `yamlrt`).  The text cut of `cutDef` (= `_parse_def_from_wb`) is only
+    a candidate now: `cutDef_correct_full_fails` and its witnesses show why it must be verified. -/
+theorem cut_is_the_member {D : Type} [DecidableEq D] (Y : Yaml D) (wb sec name : Str) (m : D)
+    (hrt : Y.parse (Y.dump m) = some m) :
+    ∃ t, memberDefinition Y wb sec name (some m) = some t ∧ Y.parse t = some m := by
+  refine ⟨cutVerified Y wb sec name m, rfl, ?_⟩
+  unfold cutVerified
+  split
+  · split
+    · assumption
+    · exact hrt
+  · exact hrt
+
+/-- the internal error is closed: with the member known there is always a definition text, also when the
+    section keyword does not occur literally in the text (`actions :`, `'workflows':`). -/
+theorem member_definition_total {D : Type} [DecidableEq D] (Y : Yaml D) (wb sec name : Str) (m : D) :
+    memberDefinition Y wb sec name (some m) ≠ none := by
+  simp [memberDefinition]
+
+/-- the author's text (comments, layout) is kept whenever the cut is right … -/
+theorem cut_kept_when_right {D : Type} [DecidableEq D] (Y : Yaml D) (wb sec name t : Str) (m : D)
+    (hc : cutDef wb (sec ++ [':']) (name ++ [':']) = some t) (hp : Y.parse t = some m) :
+    cutVerified Y wb sec name m = t := by
+  simp [cutVerified, hc, hp]
+
+/-- … and replaced by the written-out member whenever it is not. -/
+theorem cut_replaced_when_wrong {D : Type} [DecidableEq D] (Y : Yaml D) (wb sec name : Str) (m : D)
+    (hw : ∀ t, cutDef wb (sec ++ [':']) (name ++ [':']) = some t → Y.parse t ≠ some m) :
+    cutVerified Y wb sec name m = Y.dump m := by
+  unfold cutVerified
+  split
+  · rename_i t ht
+    simp [hw t ht]
+  · rfl
+
+/-- in particular for every canonically rendered workbook that meets P1, P2 (`cutDef_correct_partial`)
+    the stored text is the member exactly as written, dedented. -/
+theorem canonical_member_text_kept {D : Type} [DecidableEq D] (Y : Yaml D) (w : Workbook) (ms1 ms2 : List Member)
+    (m : Member) (sec : Str) (md : D) (hsec : w.sec = sec ++ [':'])
+    (hwf : WFWb w) (hw : w.members = ms1 ++ m :: ms2) (h1 : SectionFirst w) (h2 : NoEarlierClash ms1 m)
+    (hp : Y.parse (renderMember 0 m) = some md) :
+    cutVerified Y (renderWb w) sec m.name md = renderMember 0 m := by
+  have := cutDef_correct_partial w ms1 ms2 m hwf hw h1 h2
+  rw [hsec] at this
+  exact cut_kept_when_right Y _ _ _ _ md this hp
+
+/-- non-vacuity, and the two former counter-witnesses as regressions: with an oracle that knows the
+    texts involved, the definition of `wf2` of `witnessTaskClash` is no longer the task `wf2`, that of
+    `wf1` of `witnessSectionEarlier` no longer the action `wf1`; `wbOk` keeps its text. -/
+def witnessYaml : Yaml Nat :=
+  { parse := fun t =>
+      if t = "wf2:\n  action: std.noop\n".toList then some 1        -- the task wf2
+      else if t = "wf1:\n  base: std.noop\n".toList then some 2       -- the action wf1
+      else if t = "wf2:\n  tasks:\n    t2:\n      action: std.echo output=1\n".toList then some 3
+      else if t = "<dump 10>".toList then some 10 else if t = "<dump 20>".toList then some 20 else none,
+    dump := fun d => ("<dump " ++ toString d ++ ">").toList }
+
+theorem witnesses_repaired :
+    cutVerified witnessYaml (renderWb witnessTaskClash) "workflows".toList "wf2".toList 10 = "<dump 10>".toList ∧
+    cutVerified witnessYaml (renderWb witnessSectionEarlier) "workflows".toList "wf1".toList 20 = "<dump 20>".toList ∧
+    cutVerified witnessYaml (renderWb wbOk) "workflows".toList "wf2".toList 3 =
+      "wf2:\n  tasks:\n    t2:\n      action: std.echo output=1\n".toList := by decide
+
 /-! ### "an accepted definition re-read from its stored form is the same definition" -/
 
 /-- `to_dict()` returns the dict normalised in place by construction (`name`/`version`/`type`
